@@ -5,6 +5,7 @@ package queue
 import (
 	"context"
 	"database/sql"
+	"fmt"
 	"sort"
 	"time"
 )
@@ -93,4 +94,11 @@ func (s *SQLiteStore) VerifPragma(name string) (string, error) {
 	var v string
 	err := s.db.QueryRowContext(context.Background(), "PRAGMA "+name+";").Scan(&v)
 	return v, err
+}
+
+// VerifSetBusyTimeout shortens the time this store's connection waits for another connection's write lock (two store objects on one
+// database file: the gateway and `hookaido mcp` in direct SQLite mode).
+func (s *SQLiteStore) VerifSetBusyTimeout(ms int) error {
+	_, err := s.db.Exec(fmt.Sprintf("PRAGMA busy_timeout=%d;", ms))
+	return err
 }
